@@ -84,19 +84,28 @@ Theorem C05_string_scanner_matches_reference : forall body,
   lex_str (QUOTE :: body) = Ok (option_map (fun q => q + 2) (scan_ref body false 0)).
 Proof. exact lex_str_ref. Qed.
 
-(* 8. the 32-bit gate of TokenProducer, as written: above 2^31 is always reported ... *)
+(* 8. the 32-bit gate of TokenProducer, as written (repaired code: DESIGN section 7 #10 is
+      closed): a literal above 2^31 is reported wherever it stands; a literal equal to 2^31 is
+      reported unless the token directly before it is the minus operator (then the two are merged
+      into -2147483648).  The range theorem proper (value in [MIN, MAX] iff accepted) is C06's. *)
 Theorem C05_int_gate_reports_above_2p31 : forall ts pending out errs t,
   In t ts -> t_kind t = KInt -> (MAXI32_PLUS1 < dec_value (t_raw t) 0)%N ->
   In (ENotInt32 (t_start t) (t_end t)) (snd (produce ts pending out errs)).
 Proof. exact produce_reports_big. Qed.
 
-(* ... but the full statement [an integer token without diagnostic and without the merged minus
-   sign is <= 2^31 - 1] is FALSE of the code: `x 2147483648` (DESIGN section 7 #10, owned by
-   C06; the parser then reads the literal as 0) *)
-Theorem C05_int_gate_2p31_refuted :
-  exists ts, lex [120; 32; 50; 49; 52; 55; 52; 56; 51; 54; 52; 56]%N = Ok (ts, []) /\
-  exists t, In t ts /\ t_kind t = KInt /\ dec_value (t_raw t) 0 = MAXI32_PLUS1.
-Proof. exact int_gate_witness. Qed.
+Theorem C05_int_gate_2p31_needs_minus : forall t ts pending out errs,
+  t_kind t = KInt ->
+  ((MAXI32_PLUS1 < dec_value (t_raw t) 0)%N \/
+   (dec_value (t_raw t) 0 = MAXI32_PLUS1 /\ pending_is_minus pending = false)) ->
+  In (ENotInt32 (t_start t) (t_end t)) (snd (produce (t :: ts) pending out errs)).
+Proof. exact produce_reports_head. Qed.
+
+Theorem C05_int_gate_examples :
+  (exists ts, lex [120; 32; 50; 49; 52; 55; 52; 56; 51; 54; 52; 56]%N
+              = Ok (ts, [ENotInt32 (0, 2) (0, 12)])) /\
+  (exists t, lex [45; 50; 49; 52; 55; 52; 56; 51; 54; 52; 56]%N = Ok ([t], []) /\
+             t_raw t = [45; 50; 49; 52; 55; 52; 56; 51; 54; 52; 56]%N).
+Proof. exact int_gate_examples. Qed.
 
 (* 9. regression statement for the repaired finding C05-empty-doc-comment-panic: without the
       length guard the doc-comment slice [3 .. len-2] of `/**/` is out of bounds *)
@@ -139,5 +148,6 @@ Print Assumptions C05_string_close_iff_even_backslashes.
 Print Assumptions C05_string_reject_iff.
 Print Assumptions C05_string_scanner_matches_reference.
 Print Assumptions C05_int_gate_reports_above_2p31.
-Print Assumptions C05_int_gate_2p31_refuted.
+Print Assumptions C05_int_gate_2p31_needs_minus.
+Print Assumptions C05_int_gate_examples.
 Print Assumptions C05_unguarded_block_comment_out_of_bounds.
